@@ -14,6 +14,13 @@ T12 == << <<0, 4096>>, <<1, 8192>>, <<1, 8448>>, <<2, 12288>>, <<3, 16384>>, <<4
 LEH == {<<"set", k, <<>>>> : k \in {1, 8, 9, 11}} \cup {<<"clr", k>> : k \in {1, 8, 9, 11}} \cup {<<"reset", TRUE>>, <<"reset", FALSE>>, <<"nmtreset", 130>>, <<"cnt">>, <<"rdreg">>, <<"mode", 4>>, <<"mode", 2>>}
 PEH == << <<"rdreg">>, <<"cnt">>, <<"get", 1>>, <<"get", 8>>, <<"get", 9>>, <<"get", 11>>, <<"set", 9, <<>>>>, <<"set", 11, <<>>>>, <<"reset", FALSE>>, <<"rdreg">>, <<"cnt">>, <<"get", 9>>, <<"set", 9, <<>>>>,
           <<"nmtreset", 130>>, <<"cnt">>, <<"rdreg">>, <<"set", 11, <<>>>>, <<"rdhist", 1>> >>
+\* the whole table of CO_EMCY_N = 32 errors: identifiers at the byte boundaries of the error-status storage (0, 8, 16, 24, 31), alone and together,
+\* across COEmcyReset and NMT resets
+T32 == [k \in 1..32 |-> <<(k * 3) % 8, 4096 + 256 * (k % 200) + k>>]
+WIds == {0, 8, 16, 24, 31}
+LEW == {<<"set", k, <<>>>> : k \in WIds} \cup {<<"clr", k>> : k \in WIds} \cup {<<"reset", TRUE>>, <<"reset", FALSE>>, <<"nmtreset", 130>>, <<"cnt">>, <<"rdreg">>}
+PEW == << <<"rdreg">>, <<"cnt">>, <<"get", 0>>, <<"get", 8>>, <<"get", 16>>, <<"get", 24>>, <<"get", 31>>, <<"nmtreset", 130>>, <<"cnt">>, <<"rdreg">>,
+           <<"get", 8>>, <<"get", 16>>, <<"get", 24>>, <<"set", 8, <<>>>>, <<"set", 16, <<>>>>, <<"set", 24, <<>>>>, <<"set", 0, <<>>>>, <<"cnt">>, <<"rdreg">>, <<"reset", FALSE>>, <<"cnt">>, <<"rdreg">> >>
 PE == << <<"rdreg">>, <<"cnt">>, <<"get", 0>>, <<"get", 1>>, <<"get", 2>>, <<"get", 3>>, <<"mode", 2>>, <<"rdhist", 0>>, <<"rdhist", 1>>, <<"rdhist", 2>>,
          <<"set", 2, <<>>>>, <<"rdhist", 1>>, <<"clr", 2>>, <<"reset", FALSE>>, <<"rdreg">>, <<"cnt">> >>
 ===============================================================================
